@@ -29,12 +29,14 @@ def evStr : Ev → String
   | .fawait i => s!"fawait={itemStr i}"
   | .fhas b => s!"fhas={tf b}"
   | .dtor g => s!"~g{g}"
+  | .acc v => s!"acc={v}"
 
 def parseAct (w : String) : Option Act :=
   let rest := (w.drop 1).toString
   let num := rest.toNat?.getD 0
   match w.front with
   | 'y' => some (.yield num)
+  | 'a' => some (.yieldAcc (if 1 ≤ num && num ≤ 9 then num else 1))   -- acc.append(digit); co_yield acc
   | 'n' => some .yieldNull
   | 'r' => some .awaitReady
   | 'q' => some .pause
@@ -302,6 +304,22 @@ def doLine' (noIter : Bool) (d : D) (ws : List String) : D × String :=
         (d4, line)
   | [] => doLine d ws
 
+/-- `co <op>`: the operation is issued from inside a running coroutine (the consumer's thread is in coroutine mode). A blocking
+wait on a pending future is refused there by the library's own assert ("Blocking wait in a coroutine"): the harness does not make
+it (`would-block`). -/
+def doLineCtx (noIter : Bool) (d : D) (ws : List String) : D × String :=
+  match ws with
+  | "co" :: rest =>
+      match rest with
+      | w :: _ =>
+          if ["fwait", "fbool", "fnot"].contains w && d.s.fut == .pending then (d, "co " ++ w ++ " would-block")
+          else
+            let d0 := (prim d (.ctx true)).1
+            let (d1, line) := doLine' noIter d0 rest
+            ((prim d1 (.ctx false)).1, "co " ++ line)
+      | [] => (d, "co bad-op")
+  | _ => doLine' noIter d ws
+
 partial def loop (lines : Array String) (i : Nat) (mode : Bool) (st : Option D) (noIter : Bool := false)
     (refMode : Bool := false) : IO Unit := do
   if h : i < lines.size then
@@ -309,7 +327,9 @@ partial def loop (lines : Array String) (i : Nat) (mode : Bool) (st : Option D) 
     match ws, st with
     | ("case" :: id :: m :: _), _ =>
         IO.println s!"case {id}"
-        loop lines (i+1) (m == "a" || m == "ra") none (m == "rv") (m == "rv" || m == "ra")   -- rv / ra: generator<int&>, generator<int&,int>: same model
+        -- rv / ra: generator<int&>, generator<int&,int>; sv / sa: generator<mval>, generator<mval,int> (a value type whose move
+        -- empties the source): same model
+        loop lines (i+1) (m == "a" || m == "ra" || m == "sa") none (m == "rv") (m == "rv" || m == "ra")
     | ("script" :: acts), none =>
         IO.println "script"
         loop lines (i+1) mode (some { s := init mode (acts.filterMap parseAct), refMode := refMode }) noIter refMode
@@ -326,7 +346,7 @@ partial def loop (lines : Array String) (i : Nat) (mode : Bool) (st : Option D) 
         loop lines (i+1) mode none noIter refMode
     | [], _ => loop lines (i+1) mode st noIter refMode
     | _, some d =>
-        let (d1, head) := doLine' noIter d ws
+        let (d1, head) := doLineCtx noIter d ws
         let (d2, out) := finishLine d1 head
         IO.println out
         loop lines (i+1) mode (some d2) noIter refMode
